@@ -119,6 +119,20 @@ pub fn gen_case(t: &mut Tape) -> Case {
         }
         src.push_str(&format!("{q}fn gpick<'a>(xs: &'a [u64]) -> &'a u64 {{ let v = vec![xs[0]]; {y}&xs[(v[0] % 2) as usize] }}\n"));
     }
+    // ... and a fn with a relaxed argument-position `impl Trait` behind a reference (monomorphised per caller type, no vtable)
+    let describe = t.weighted(&[2, 1, 1]); // 0 none, 1 sync, 2 async
+    if describe > 0 {
+        let q = if describe == 2 { "async " } else { "" };
+        let y = if describe == 2 { "crate::rt::yield_once().await; " } else { "" };
+        // (a Send future may only hold `&T` / `&mut T` for `T: Sync` / `T: Send`)
+        let ss = if describe == 2 { " + Send + Sync" } else { "" };
+        let f = format!("{q}fn describe(_deps: &impl ::core::any::Any, value: &(impl ::core::fmt::Debug + ?Sized{ss}), other: &mut (impl ::core::fmt::Debug + ?Sized{ss})) -> u64 {{ let v = vec![1u64]; {y}v[0] + ::core::any::type_name_of_val(value).len() as u64 + 100 * ::core::any::type_name_of_val(other).len() as u64 }}");
+        if t.chance(1, 3) {
+            src.push_str(&format!("#[::entrait::entrait(pub Describe)]\npub mod dm {{\n    pub {f}\n}}\nuse dm::describe;\n"));
+        } else {
+            src.push_str(&format!("#[::entrait::entrait(pub Describe)]\n{f}\n"));
+        }
+    }
     // ... and an entraited trait with methods that take `self` by value (default delegation to `Self`)
     let byval = t.weighted(&[2, 1, 1, 1]); // 0 none, 1 `?Send`, 2 `Send` supertrait, 3 neither
     if byval > 0 {
@@ -136,13 +150,26 @@ pub fn gen_case(t: &mut Tape) -> Case {
         call(&format!("app.f0(5{top_tag})")),
         call(&format!("g0(7{top_tag})")),
         call(&format!("app.f0(7{top_tag})")),
-        if pick > 0 || byval > 0 {
+        if pick > 0 || byval > 0 || describe > 0 {
             let c = |e: &str| if pick == 1 { format!("rt::block_on_pinned({e})") } else { e.to_string() };
             let byval_src = if byval > 0 {
                 "    let _w = (rt::block_on_pinned(ByVal::consume(Bv, 1)), rt::block_on_pinned(ByVal::consume(::entrait::Impl::new(Bv), 1)), ByVal::consume_sync(Bv, 1), ByVal::consume_sync(::entrait::Impl::new(Bv), 1));\n    let c0 = rt::allocs();\n    let v_plain = (rt::block_on_pinned(ByVal::consume(Bv, 5)), ByVal::consume_sync(Bv, 5));\n    let c1 = rt::allocs();\n    let v_via = (rt::block_on_pinned(ByVal::consume(::entrait::Impl::new(Bv), 5)), ByVal::consume_sync(::entrait::Impl::new(Bv), 5));\n    let c2 = rt::allocs();\n    rt::expect_eq(&mut fails, \"by-value trait methods: result\", &v_via, &v_plain);\n    rt::expect_eq(&mut fails, \"by-value trait methods: heap allocations through Impl<T> vs direct\", &(c2 - c1), &(c1 - c0));\n".to_string()
             } else {
                 String::new()
             };
+            let describe_src = if describe > 0 {
+                let c = |e: &str| if describe == 2 { format!("rt::block_on_pinned({e})") } else { e.to_string() };
+                format!(
+                    "    let mut o1 = 7u16;\n    let _w = ({}, {});\n    let d0 = rt::allocs();\n    let d_plain = {};\n    let d1 = rt::allocs();\n    let d_via = {};\n    let d2 = rt::allocs();\n    rt::expect_eq(&mut fails, \"fn with `&(impl Trait + ?Sized)` parameters: result (carries the instantiated type names)\", &d_via, &d_plain);\n    rt::expect_eq(&mut fails, \"fn with `&(impl Trait + ?Sized)` parameters: heap allocations through the trait vs direct\", &(d2 - d1), &(d1 - d0));\n",
+                    c("describe(&app, \"str\", &mut o1)"),
+                    c("app.describe(\"str\", &mut o1)"),
+                    c("describe(&app, \"str\", &mut o1)"),
+                    c("app.describe(\"str\", &mut o1)")
+                )
+            } else {
+                String::new()
+            };
+            let byval_src = byval_src + &describe_src;
             if pick == 0 {
                 byval_src
             } else {
@@ -173,6 +200,9 @@ pub fn gen_case(t: &mut Tape) -> Case {
     }
     if byval > 0 {
         classes.push("trait_methods_taking_self_by_value");
+    }
+    if describe > 0 {
+        classes.push("relaxed_impl_trait_reference_parameters");
     }
     let summary = format!("chain depth {depth}, async levels {first_sync}, end {}{}", ["entraited fn", "statically delegated leaf trait", "statically delegated impl block", "`no_deps` fn"][end], if end_async { " (async)" } else { "" });
     Case { src, summary, nontrivial: any_async || depth >= 2, classes }
